@@ -34,6 +34,12 @@ fn viol(prop: &str, sig: String, msg: String, extra: serde_json::Value) -> Viol 
     Viol { property: prop.into(), signature: sig, message: msg, replay: json!({"engine": "medium-scale deterministic differential run", "details": extra}) }
 }
 
+/// a stored element reported absent breaks C01 and the exact-set / exact-multiset property alike
+fn false_negative(vs: &mut Vec<Viol>, exact_prop: &str, sig: String, msg: String, extra: serde_json::Value) {
+    vs.push(viol("C01", sig.clone(), msg.clone(), extra.clone()));
+    vs.push(viol(exact_prop, sig, msg, extra));
+}
+
 #[derive(Default, Clone, Debug)]
 pub struct MStats {
     pub ops: u64,
@@ -83,14 +89,14 @@ pub fn qf_run(q: usize, r: usize, kind: usize, stats: &mut MStats) -> Vec<Viol> 
         }
         // every inserted fingerprint present (checked in full every 16 steps, the newest always)
         if !f.query(&Key(key)) && set.contains(&fp) {
-            vs.push(viol("C01", format!("medium qf(q={},r={}) false negative", q, r), format!("element inserted at step {} is reported absent right afterwards", step), cfg.clone()));
+            false_negative(&mut vs, "C13", format!("medium qf(q={},r={}) false negative", q, r), format!("element inserted at step {} is reported absent right afterwards", step), cfg.clone());
             return vs;
         }
         if step % 16 == 15 || step + 1 == keys.len() {
             for &g in &set {
                 stats.comparisons += 1;
                 if !f.query(&Key(g)) {
-                    vs.push(viol("C01", format!("medium qf(q={},r={}) false negative", q, r), format!("fingerprint {:#x} (inserted) is reported absent after {} inserts", g, step + 1), cfg.clone()));
+                    false_negative(&mut vs, "C13", format!("medium qf(q={},r={}) false negative", q, r), format!("fingerprint {:#x} (inserted) is reported absent after {} inserts", g, step + 1), cfg.clone());
                     return vs;
                 }
             }
@@ -141,6 +147,29 @@ pub fn qf_run(q: usize, r: usize, kind: usize, stats: &mut MStats) -> Vec<Viol> 
             }
         }
         Err(p) => vs.push(viol("C06", format!("medium qf(q={},r={}) union panics", q, r), format!("union panicked: {}", p), cfg.clone())),
+    }
+    // union of an empty filter with the heavily loaded one (long clusters across all word boundaries)
+    {
+        let mut e = mk();
+        stats.ops += 1;
+        match mccore::panics::catch(|| e.union(&f)) {
+            Ok(Ok(())) => {
+                let lost: Vec<u64> = set.iter().copied().filter(|&g| !e.query(&Key(g))).take(3).collect();
+                if !lost.is_empty() || e.len() != set.len() {
+                    vs.push(viol("C06", format!("medium qf(q={},r={}) union of empty with loaded filter", q, r), format!("empty.union(&loaded): len {} vs {}, lost fingerprints {:x?}", e.len(), set.len(), lost), cfg.clone()));
+                    if !lost.is_empty() {
+                        vs.push(viol("C01", format!("medium qf(q={},r={}) union false negative", q, r), format!("after empty.union(&loaded) fingerprints {:x?} of the operand are absent", lost), cfg.clone()));
+                    }
+                }
+                // and nothing else
+                let phantom = (0..1u64 << 12).map(|i| (i.wrapping_mul(0x9E3779B97F4A7C15) >> 9) & mask).filter(|x| !set.contains(x)).take(1024).find(|x| e.query(&Key(*x)));
+                if let Some(x) = phantom {
+                    vs.push(viol("C06", format!("medium qf(q={},r={}) union adds a phantom", q, r), format!("after empty.union(&loaded) fingerprint {:#x} (in neither operand) is present", x), cfg.clone()));
+                }
+            }
+            Ok(Err(_)) => vs.push(viol("C06", format!("medium qf(q={},r={}) union of empty with loaded fails", q, r), "empty.union(&loaded) returned Err".into(), cfg.clone())),
+            Err(p) => vs.push(viol("C06", format!("medium qf(q={},r={}) union panics", q, r), format!("union panicked: {}", p), cfg.clone())),
+        }
     }
     // C12: a union that must fail (the full filter f united with a filter holding new fingerprints) leaves f unchanged
     if f.len() == cap {
@@ -289,11 +318,45 @@ pub fn cuckoo_run(bucketsize: usize, n_buckets: usize, l: usize, kind: usize, ta
                 let want = cnt.get(&class(x)).copied().unwrap_or(0) > 0;
                 let got = f.query(&Key(x));
                 if got != want {
-                    let p = if want { "C01" } else { "C14" };
-                    vs.push(viol(p, format!("medium cuckoo({},{},{}) query {}", bucketsize, n_buckets, l, if want { "false negative" } else { "phantom" }), format!("step {}: query(key {}) = {} but the reference holds {} copies of its class", step, x, got, cnt.get(&class(x)).copied().unwrap_or(0)), cfg.clone()));
+                    let sig = format!("medium cuckoo({},{},{}) query {}", bucketsize, n_buckets, l, if want { "false negative" } else { "phantom" });
+                    let msg = format!("step {}: query(key {}) = {} but the reference holds {} copies of its class", step, x, got, cnt.get(&class(x)).copied().unwrap_or(0));
+                    if want {
+                        false_negative(&mut vs, "C14", sig, msg, cfg.clone());
+                    } else {
+                        vs.push(viol("C14", sig, msg, cfg.clone()));
+                    }
                     return vs;
                 }
             }
+        }
+    }
+    // union: a fresh filter united with the final one (which has holes from deletes) must hold exactly its multiset
+    {
+        let hasher2 = f.clone();
+        let mut e = hasher2.clone();
+        e.clear();
+        stats.ops += 1;
+        chooser::begin_with(&[], tail, 0);
+        let r = mccore::panics::catch(|| e.union(&f));
+        chooser::end();
+        match r {
+            Ok(Ok(())) => {
+                if e.len() as u64 != total {
+                    vs.push(viol("C06", format!("medium cuckoo({},{},{}) union len", bucketsize, n_buckets, l), format!("empty.union(&loaded): len() = {} but the operand holds {} copies", e.len(), total), cfg.clone()));
+                }
+                for &x in &inserted {
+                    let want = cnt.get(&class(x)).copied().unwrap_or(0) > 0;
+                    if e.query(&Key(x)) != want {
+                        if want {
+                            vs.push(viol("C01", format!("medium cuckoo({},{},{}) union false negative", bucketsize, n_buckets, l), format!("after empty.union(&loaded) key {} (stored in the operand) is absent", x), cfg.clone()));
+                        }
+                        vs.push(viol("C06", format!("medium cuckoo({},{},{}) union differs from the operand's multiset", bucketsize, n_buckets, l), format!("after empty.union(&loaded) query(key {}) = {}", x, !want), cfg.clone()));
+                        break;
+                    }
+                }
+            }
+            Ok(Err(_)) => {} // a union into an empty table of the same size may legitimately fail only through kicks; not judged
+            Err(p) => vs.push(viol("C06", format!("medium cuckoo({},{},{}) union panics", bucketsize, n_buckets, l), format!("union panicked: {}", p), cfg.clone())),
         }
     }
     vs
@@ -408,7 +471,7 @@ pub fn run_all(which: &[&str], thorough: bool, threads: usize) -> (MStats, Vec<V
             }
         }
         if which.contains(&"cms") {
-            for &(w, d) in &[(17usize, 3usize), (64, 4), (33, 7)] {
+            for &(w, d) in &[(17usize, 3usize), (64, 4), (33, 7), (7, 33), (3, 40), (300, 2)] {
                 jobs.push(J::Cm(w, d, kind));
             }
         }
